@@ -282,6 +282,8 @@ pub fn run_c01(out: &mut Out, tier: &str, seed: u64) {
     }
     crate::objapi::boxes(out, &mut rng);
     crate::objapi::classic_box_forms(out, &mut rng);
+    #[cfg(feature = "nightly")]
+    crate::c18::containers(out, &mut rng, false);
 }
 
 /// One tamper family over secretbox / box / sealed box: every single-bit flip of every component,
